@@ -1,0 +1,24 @@
+//go:build verif
+
+package roothash
+
+import (
+	"github.com/oasisprotocol/oasis-core/go/common"
+	"github.com/oasisprotocol/oasis-core/go/common/quantity"
+	tmapi "github.com/oasisprotocol/oasis-core/go/consensus/cometbft/api"
+	staking "github.com/oasisprotocol/oasis-core/go/staking/api"
+)
+
+// VerifDistributeSlashedFunds runs distributeSlashedFunds (the split of slashed stake between the
+// runtime account and the other rewarded accounts) in the given context.
+//
+// Verification hook (property C10): exports a private function, adds no behaviour.
+func VerifDistributeSlashedFunds(
+	ctx *tmapi.Context,
+	totalSlashed *quantity.Quantity,
+	runtimePercentage uint64,
+	runtimeID common.Namespace,
+	otherAddresses []staking.Address,
+) error {
+	return distributeSlashedFunds(ctx, totalSlashed, runtimePercentage, runtimeID, otherAddresses)
+}
